@@ -93,7 +93,7 @@ def hubState (k : HubKind) (s : HubSt) : String :=
   let dm := "|".intercalate (s.demand.map toString)
   let sl := String.join (s.live.map b2)
   let base := s!"dm={dm},pd={s.pending},sl={sl}"
-  (if k = .balance then base ++ s!",nx={s.next}" else base) ++ s!",al={b2 s.alive}"
+  (if k = .balance then base ++ s!",nx={s.next},bf={s.buf.length},ud={b2 s.upDone}" else base) ++ s!",al={b2 s.alive}"
 
 def hOutMsgs (n : Nat) (o : HOut) : List String :=
   -- the rig drains the upstream probe first, then the slot probes in slot order
@@ -241,7 +241,12 @@ def judgeHub (kind : String) (n m : Nat) (evs : List String) (toks : List String
     if msg.startsWith pre then (msg.drop pre.length).toString.toInt? else none
   let outs := (List.range n).map sent
   let j : Junction := if kind = "bchub" then .broadcast n else if kind = "blhub" then .balance n else .partition n m
-  match judgeJunction j [ins] outs [] with
+  -- the Balance hub may hold elements back until a branch signals demand: what was sent must partition a
+  -- prefix of the input, and the whole input once the hub has completed its branches
+  let total := (outs.map List.length).foldl (· + ·) 0
+  let completed := toks.any fun t => (tokMsgs t).any (·.endsWith ":c")
+  let insJ := if kind = "blhub" && !completed then ins.take total else ins
+  match judgeJunction j [insJ] outs [] with
   | none => "ok"
   | some why => "bad " ++ why
 
